@@ -63,10 +63,15 @@ def value_for(rng, vt):
     return float(rng.choice([Fraction(0), Fraction(1, 2), Fraction(-3, 4), Fraction(2), Fraction(5, 4)]))
 
 
+# values at and around every integer-width boundary (dtype narrowing in _sample_array, casts between sample fields)
+BOUNDARY = [127, 128, -127, -128, -129, 255, 256, 32767, 32768, -32767, -32768, -32769, 65535, 65536,
+            2 ** 31 - 1, 2 ** 31, -2 ** 31 + 1, -2 ** 31, -2 ** 31 - 1, 2 ** 32]
+
+
 def append_value(rng, vt):
     """a value for an appended column: also values the receiver's (possibly narrow) sample dtype cannot hold"""
     if vt in ('INTEGER', 'DISCRETE'):
-        return rng.choice([rng.randint(-3, 5), rng.randint(-3, 5), 300, -200, 40000])
+        return rng.choice([rng.randint(-3, 5), rng.randint(-3, 5), 300, -200, 40000, rng.choice(BOUNDARY), rng.choice(BOUNDARY)])
     if vt == 'REAL':
         return float(rng.choice([Fraction(1, 2), Fraction(-3, 4), Fraction(2), Fraction(5, 4), Fraction(300), Fraction(140001, 2)]))
     return value_for(rng, vt)
@@ -172,7 +177,8 @@ def gen_case(rng, tier):
             labels = rand_labels(rng, n)
         n = len(labels)
         vt = rng.choice(['BINARY', 'SPIN', 'INTEGER', 'REAL'])
-        rows = [[value_for(rng, vt) for _ in range(n)] for _ in range(m)]
+        rows = [[rng.choice(BOUNDARY) if (vt == 'INTEGER' and rng.random() < 0.35) else value_for(rng, vt) for _ in range(n)]
+                for _ in range(m)]
         perms = []
         for _ in range(m + 1):
             p = list(range(n))
@@ -680,7 +686,8 @@ def run_as(c):
     isfloat = any(isinstance(x, float) for r in rows for x in r)
     adt = float if isfloat else np.int64
     kw = {"copy": c["copy"], "order": c["order"]}
-    if c["dtype"] and not (isfloat and c["dtype"] == 'int32'):
+    big = any(abs(x) > 2 ** 31 - 1 for r in rows for x in r)       # does not fit the requested int32: not a valid request
+    if c["dtype"] and not ((isfloat or big) and c["dtype"] == 'int32'):
         kw["dtype"] = c["dtype"]
     else:
         c = dict(c, dtype=None)
